@@ -62,8 +62,15 @@ Definition node_loop (rec : nrec) (g : game) (real beta remaining : Z)
 Definition entry_pv (e : option entry) : option Move :=
   match e with Some en => e_pv en | None => None end.
 
+(* the table entry a node at ply [real] sees: mate scores recounted from the root (fix: score_from_table) *)
+Definition node_entry (g : game) (st : sstate) (real : Z) : option entry :=
+  option_map (entry_from_table real) (tfind (s_tbl st) (g_hash g)).
+
+Lemma entry_pv_from_table real e : entry_pv (option_map (entry_from_table real) e) = entry_pv e.
+Proof. destruct e; reflexivity. Qed.
+
 Definition node_sorted_of (moves : list Move) (g : game) (st : sstate) (real : Z) : list Move :=
-  sort_moves (fun m => move_score m (entry_pv (tfind (s_tbl st) (g_hash g)))
+  sort_moves (fun m => move_score m (entry_pv (node_entry g st real))
                                   (znth (s_killers st) real None) (s_hist st)) moves.
 Definition node_sorted (g : game) (st : sstate) (real : Z) : list Move :=
   node_sorted_of (checked_moves g) g st real.
@@ -71,11 +78,11 @@ Definition node_sorted (g : game) (st : sstate) (real : Z) : list Move :=
 Definition node_flag (l : lstate) (alpha beta : Z) : ntype :=
   if l_bscore l <=? alpha then UpperBound else if beta <=? l_bscore l then LowerBound else Exact.
 
-Definition node_finish (g : game) (st : sstate) (remaining alpha beta : Z) (res : outcome lstate)
+Definition node_finish (g : game) (st : sstate) (real remaining alpha beta : Z) (res : outcome lstate)
   : outcome Z * sstate :=
   match res with
   | Done l =>
-      let ne := mkEntry (l_bscore l) (l_best l) remaining (node_flag l alpha beta) in
+      let ne := mkEntry (score_to_table (l_bscore l) real) (l_best l) remaining (node_flag l alpha beta) in
       let st' := l_st l in
       (Done (l_alpha l), with_tbl st' (store_node (s_tbl st') (g_hash g) ne))
   | Aborted sa => (Aborted sa, sa)
@@ -87,13 +94,13 @@ Definition node_deep (r : nat) (g : game) (st : sstate) (real alpha beta : Z) : 
   match checked_moves g with
   | [] => (Done (no_move_score g MATE_OFFSET_NODE real), st)
   | moves =>
-      node_finish g st (Z.of_nat (S (S r))) alpha beta
+      node_finish g st real (Z.of_nat (S (S r))) alpha beta
         (node_loop (node (S r)) g real beta (Z.of_nat (S (S r))) (node_sorted_of moves g st real) 0
                    (mkL alpha None SCORE_MIN st))
   end.
 
 Definition node_body (rem : nat) (g : game) (st : sstate) (real alpha beta : Z) : outcome Z * sstate :=
-  match probe (tfind (s_tbl st) (g_hash g)) (Z.of_nat rem) alpha beta with
+  match probe (node_entry g st real) (Z.of_nat rem) alpha beta with
   | Some s => (Done s, st)
   | None =>
       match rem with
@@ -117,7 +124,7 @@ Lemma node_deep_eq : forall r g st real alpha beta,
   match checked_moves g with
   | [] => (Done (no_move_score g MATE_OFFSET_NODE real), st)
   | _ =>
-      node_finish g st (Z.of_nat (S (S r))) alpha beta
+      node_finish g st real (Z.of_nat (S (S r))) alpha beta
         (node_loop (node (S r)) g real beta (Z.of_nat (S (S r))) (node_sorted g st real) 0
                    (mkL alpha None SCORE_MIN st))
   end.
